@@ -3631,10 +3631,15 @@ func restartSubtree(ctx context.Context, node *restartNode, parent *PID, tree *t
 		tk.Stop()
 	}
 
-	// Wait until no worker holds the actor before re-initializing. The
-	// MPSC mailbox is single-consumer; restarting while a worker is mid
-	// Dequeue would be a data race.
-	for pid.schedState.Load() == dispatchProcessing {
+	// Wait until the actor is quiescent before re-initializing: no worker holds
+	// it (the MPSC mailbox is single-consumer; restarting while a worker is mid
+	// Dequeue would be a data race) AND it is not sitting on the ready queue
+	// with a backlog. A Scheduled actor is taken by a worker at any moment;
+	// once resetBehavior below has re-installed Receive, that worker would run
+	// Receive on the old backlog while PreStart is still running. New messages
+	// cannot arrive meanwhile (the actor is not running), so the state reaches
+	// Idle as soon as the backlog has been drained.
+	for pid.schedState.Load() != dispatchIdle {
 		runtime.Gosched()
 	}
 
